@@ -156,6 +156,10 @@ Proof.
   apply escape_go_safe; [left; reflexivity|lia|lia|unfold blen; lia|lia].
 Qed.
 
+(* the code is the repaired variant: total on every input *)
+Lemma escape_json_total s : safe (escape_json s).
+Proof. exact (escape_json_fixed_safe s). Qed.
+
 (* the hypothesis is not vacuous and the witness violates it *)
 Lemma fffd_has_fffd : ~ no_fffd fffd.
 Proof. intros H. apply (H 0%nat). reflexivity. Qed.
